@@ -201,6 +201,170 @@ def part_b(chk):
     return nontrivial, {"depth": depth_hist, "stages": stage_hist}
 
 
+class SourceError(Exception):
+    def __init__(self, code):
+        super().__init__(f"source-error-{code}")
+        self.code = code
+
+
+def gen_sub_case(rng):
+    def calls(n, kinds):
+        return [(rng.choice(kinds), rng.randrange(5), rng.random() < 0.15) for _ in range(n)]
+    return {"prefix": calls(rng.choice([0, 0, 1, 2, 3]), ["N", "N", "N", "E", "C"]),
+            "src_raises": rng.choice([None, None, 31, 32]),
+            "fail_handler_raises": rng.random() < 0.15,
+            "tail": calls(rng.choice([0, 1, 2, 4]), ["N", "N", "N", "E", "C", "D"]),
+            "form": rng.choice(["callbacks", "callbacks", "observer", "no_on_error"]),
+            "returns": rng.choice(["disposable", "none", "callable"])}
+
+
+def run_subscribe_case(case):
+    """Observable.subscribe around a hand-written subscribe function that delivers `prefix` to the observer it is
+    given, then possibly raises, keeps the observer and delivers `tail` later.  -> (forest of the calls actually made,
+    effects projected to Deliver / Raised / FailReturned, what the subscriber saw)"""
+    import reactivex
+    from reactivex.disposable import Disposable
+    effects, seen, made = [], [], []
+    stash = []
+    cur = [None]
+
+    def cb(ev, kind):
+        def f(*a):
+            effects.append(f"Deliver ({ev(*a)})" if a else f"Deliver {ev()}")
+            seen.append(kind)
+            if cur[0] is not None and cur[0][2]:
+                raise CallbackError()
+        return f
+    on_next = cb(lambda v: f"Next {v}", "N")
+    on_error = cb(lambda e: f"Err {e.code}", "E")
+    on_completed = cb(lambda: "Done", "C")
+
+    def call(o, c):
+        """one source-side call; exceptions from the subscriber's callback are swallowed here (recorded)"""
+        cur[0] = c
+        made.append(c)
+        try:
+            if c[0] == "N":
+                o.on_next(c[1])
+            elif c[0] == "E":
+                o.on_error(SourceError(c[1]))
+            else:
+                o.on_completed()
+        except CallbackError:
+            effects.append("Raised 77")
+        except SourceError:         # no error handler: the default one re-raises the error it is given
+            effects.append("Raised 77")
+            seen.append("E")
+        finally:
+            cur[0] = None
+
+    def subscribe(o, scheduler=None):
+        stash.append(o)
+        for c in case["prefix"]:
+            call(o, c)
+        if case["src_raises"] is not None:
+            cur[0] = ("F", case["src_raises"], case["fail_handler_raises"])
+            raise SourceError(case["src_raises"])
+        if case["returns"] == "disposable":
+            return Disposable()
+        if case["returns"] == "callable":
+            return lambda: None
+        return None
+    obs = reactivex.Observable(subscribe)
+    d = None
+    try:
+        if case["form"] == "callbacks":
+            d = obs.subscribe(on_next, on_error, on_completed)
+        elif case["form"] == "observer":
+            from reactivex import Observer
+            d = obs.subscribe(Observer(on_next, on_error, on_completed))
+        else:
+            d = obs.subscribe(on_next, None, on_completed)
+        if case["src_raises"] is not None:
+            made.append(("F", case["src_raises"], case["fail_handler_raises"]))
+            effects.append("FailReturned true")
+    except SourceError:
+        made.append(("F", case["src_raises"], case["fail_handler_raises"]))
+        effects.append("FailReturned false")
+    except CallbackError:
+        made.append(("F", case["src_raises"], case["fail_handler_raises"]))
+        effects.append("Raised 77")
+    finally:
+        cur[0] = None
+    for c in case["tail"]:
+        if c[0] == "D":
+            if d is not None:
+                made.append(c)
+                d.dispose()
+        elif stash:
+            call(stash[0], c)
+    return made, effects, "".join(seen)
+
+
+def g_flat(c):
+    k = {"N": f"KNext {c[1]}", "E": f"KError {c[1]}", "C": "KCompleted", "D": "KDispose", "F": f"KFail {c[1]}"}[c[0]]
+    return f"Call ({k}) [] {gbool(bool(c[2]) and c[0] != 'D')}"
+
+
+def part_c(chk):
+    """Observable.subscribe itself: a subscribe function that raises after handing out / keeping the observer"""
+    n = 400 if chk.tier == "quick" else 6000
+    cases, nontrivial = [], set()
+    hist = {"subscribe_fn_raises": 0, "form": {}, "emits_after_failure": 0}
+    for _ in range(n):
+        case = gen_sub_case(chk.rng)
+        made, eff, saw = run_subscribe_case(case)
+        chk.cov["evaluations"] += 1
+        hist["form"][case["form"]] = hist["form"].get(case["form"], 0) + 1
+        if case["src_raises"] is not None:
+            hist["subscribe_fn_raises"] += 1
+            if any(c[0] != "D" for c in case["tail"]):
+                hist["emits_after_failure"] += 1
+        g = "[" + "; ".join(g_flat(c) for c in made) + "]"
+        if case["form"] == "no_on_error":
+            # without a handler an error surfaces as an exception at the emitter; whether fail() delivered or
+            # declined cannot be told apart from outside, so only the grammar is judged
+            if not GRAMMAR.match(saw):
+                chk.violation(f"subscribe-grammar|{json.dumps(case)}"[:160],
+                              {"subscribe_case": case, "subscriber_saw": saw, "effects": eff, "expected": "N*[EC]?"},
+                              size=len(made))
+            continue
+        if not GRAMMAR.match(saw):
+            chk.violation(f"subscribe-grammar|{json.dumps(case)}"[:160],
+                          {"subscribe_case": case, "calls made by the source (incl. fail)": g, "subscriber_saw": saw,
+                           "effects": eff, "expected": "N*[EC]?"}, size=len(made))
+        if len(saw) > 1 and saw[-1] in "EC" and case["src_raises"] is not None:
+            nontrivial.add(g + case["form"])
+        cases.append((g, "[" + "; ".join(eff) + "]"))
+    prelude = """
+Definition eff_eqb (a b : effect Z) : bool :=
+  match a, b with
+  | Deliver x, Deliver y => ev_eqb Z.eqb x y
+  | SubDispose, SubDispose => true
+  | Raised x, Raised y => x =? y
+  | FailReturned x, FailReturned y => Bool.eqb x y
+  | _, _ => false
+  end.
+Definition no_subdispose (l : list (effect Z)) : list (effect Z) :=
+  filter (fun e => match e with SubDispose => false | _ => true end) l.
+Definition model (h : list (call Z)) := no_subdispose (snd (run_calls false h)).
+"""
+    bad, logs = lib.correspondence("C01", "subscribe", IMPORTS_A, "list (call Z) * list (effect Z)", "model",
+                                   "(list_eqb eff_eqb)", cases, prelude=prelude)
+    chk.cov["traces_validated_against_impl"] += len(cases)
+    chk.cov["disagreements_checked"] += len(cases)
+    if bad:
+        firsts = [cases[i] for i in bad if i >= 0][:3]
+        d = {"n": len(bad), "first (calls made, implementation effects)": firsts, "logs": logs[:1]}
+        if firsts:
+            d["model_says"] = lib.coq_show("C01", IMPORTS_A, f"model {firsts[0][0]}", prelude)
+        chk.tie_broken("correspondence K1: Observable.subscribe (subscribe function raising / keeping the observer) "
+                       "vs Core/AutoDetach.v", d)
+    if cases:
+        chk.add_samples([{"calls": cases[0][0], "effects": cases[0][1]}])
+    return nontrivial, hist
+
+
 def _c05_table_hashable():
     # C05.ops_table reads k2.POOL through its module-level import; rebuild with the hashable pool
     import importlib
@@ -216,13 +380,18 @@ def run(chk):
     chk.build_and_prove()
     nt_a, hist_a = part_a(chk)
     nt_b, hist_b = part_b(chk)
-    chk.cov["distinct_nontrivial"] = len(nt_a) + len(nt_b)
+    nt_c, hist_c = part_c(chk)
+    chk.cov["distinct_nontrivial"] = len(nt_a) + len(nt_b) + len(nt_c)
     chk.cov["rule"] = ("(a) seeded random call forests on AutoDetachObserver (1-5 top-level calls, nesting <= 2, "
                        "20% raising callbacks; kinds on_next/on_error/on_completed/dispose/fail); non-trivial = "
                        "distinct forests whose callbacks saw >= 2 notifications ending in a terminal.  (b) seeded "
                        "random pipelines of 1-4 Z->Z operators (C05+C06 tables) over hot sources, half of them "
-                       "non-conforming; non-trivial = distinct (pipeline, input) of depth >= 2 with >= 2 outputs")
-    chk.cov["input_distribution"] = {"autodetach": hist_a, "pipelines": hist_b}
+                       "non-conforming; non-trivial = distinct (pipeline, input) of depth >= 2 with >= 2 outputs.  (c) "
+                       "Observable.subscribe around hand-written subscribe functions: prefix delivered inside "
+                       "subscribe (0-3 calls), the function then raises (50%) or returns a disposable / None / a "
+                       "callable, keeps the observer and delivers a tail later (0-4 calls incl. dispose); subscriber "
+                       "given as callbacks / Observer object / without error handler; 15% raising callbacks")
+    chk.cov["input_distribution"] = {"autodetach": hist_a, "pipelines": hist_b, "subscribe": hist_c}
     return chk.finish(trusted_extra=["drivers harness/props/C01.py (call-forest replay) and harness/k2.py"])
 
 
